@@ -335,6 +335,34 @@ def tie(ctx):
                                          "impl: " + decodedz.get(i, decoded.get(i, "-"))[:300],
                                          "want: ok " + cd.expected_readback(k, v)[:300]]
                                         if h.startswith("ok") and len(h.split()) > 2 else [])})
+    # ---- the single-column write path of the 1.x storage (behind every 1.x blob setter): encode, decode again, refuse
+    # when the value did not survive, write; then the single-column read.  Harness only (the storage class is hidden
+    # from the public API; the object files are linked directly).  An accepted value must read back as the Spec says;
+    # refusing is always allowed here.  (round 5, seeded C03-6: the guard was weakened to "the decoded value is a
+    # fixed point of the codec", which let values the format cannot hold be written in a form that reads back
+    # differently)
+    col_items = [(k, v) for (k, v) in vals if k.startswith("v1.")]
+    col_lines = ["v1col %s %s" % (k, cd.enc_text(k, v)) for (k, v) in col_items]
+    if col_lines:
+        hcol = [o for (outs, _) in runner.run_harness(runner.shard(col_lines, NCPU), stateless=True) for o in outs]
+        for (k, v), l, h in zip(col_items, col_lines, hcol):
+            if h.startswith("ok ") and " | " in h:
+                back = h.split(" | ", 1)[1]
+                if back != cd.expected_readback(k, v):
+                    cls["column_readback_differs"] = cls.get("column_readback_differs", 0) + 1
+                    violations.append({"tag": "oracle", "signature": None,
+                                       "header": {"kind": "input",
+                                                  "what": "the 1.x single-column write path accepted a value and wrote it in a "
+                                                          "form that reads back as something else"},
+                                       "body": [l[:200000], "impl: " + h[:600], "want: ... | " + cd.expected_readback(k, v)[:300]]})
+                else:
+                    cls["column_roundtrip_ok"] = cls.get("column_roundtrip_ok", 0) + 1
+            elif h.startswith("throw"):
+                cls["column_refused"] = cls.get("column_refused", 0) + 1
+            else:
+                violations.append({"tag": "oracle", "signature": None,
+                                   "header": {"kind": "input", "what": "the 1.x single-column write path crashed: " + h[:80]},
+                                   "body": [l[:200000], "impl: " + h[:300]]})
     # ---- the compression loops: recorded deflate() calls of the real library replayed through the Model
     zt = compress_trace_stream(rng, ctx.tier, vals, henc, hist, divergences, violations)
     # one KNOWN-FINDING line is enough: keep at most one violation per known signature
